@@ -36,7 +36,7 @@ CLAIMED = {
             "Bounded generated-program exploration: programs with conflicting non-atomic accesses and a synchronisation idiom between them, in correct and deliberately weakened variants; the run must report a causality violation iff the reference finds a consistent execution with unordered conflicting accesses (must/may bracket over admissible readings).",
             "Trusts R-AX / R-SC happens-before; awaited flags are written once; findings F5c, F11, F2b attributed by class.", "4/C04"),
     "C14": ("property-based testing with an instrumentation hook: reference depth-first step function + distinctness of decision paths",
-            "For generated programs of all families the iteration hook reports every decision path; an independent reference computes the deepest open branch and checks that loom's next prefix is its legal successor, that exhaustion coincides with the end of the run, that no decision sequence repeats and that paths increase in depth-first rank order.",
+            "For generated programs of all families (2-5 threads: one family fills all of loom's MAX_THREADS slots) the iteration hook reports every decision path; an independent reference computes the deepest open branch and checks that loom's next prefix is its legal successor, that exhaustion coincides with the end of the run, that no decision sequence repeats and that paths increase in depth-first rank order.",
             "Trusts the hook snapshot (feature `verif`); runs longer than the iteration cap are checked on their prefix.", "4/C14"),
     "C15": ("property-based metamorphic testing across preemption bounds + independent preemption count by trace replay on R-SC (also for the part of a run resumed from a checkpoint)",
             "Each generated program is run unbounded and with bounds n, n+1 and >= #operations: per-execution preemption count (independent replay), subset, monotonicity and large-bound equality relations are checked.",
